@@ -6,22 +6,23 @@
 From Coq Require Import String List NArith Bool.
 Import ListNotations.
 Require Import Verif.Seq.SeqModel Verif.Seq.SeqFlat Verif.Seq.SeqProps Verif.Seq.SeqTree Verif.Seq.SeqBoxes Verif.Seq.SeqShapeProps Verif.Gen.SeqShape.
-Require Import Verif.Seq.Fmt Verif.Seq.FmtProps Verif.Seq.SeqOpts Verif.Seq.SeqOptsProps.
+Require Import Verif.Seq.Fmt Verif.Seq.FmtProps Verif.Seq.SeqOpts Verif.Seq.SeqOptsProps Verif.Seq.SeqOptsTotal.
 
 (* ---- obligations against the current source ---- *)
 Theorem C13_source_shape_known : shape_known = true.
 Proof. exact shape_is_known. Qed.
 Print Assumptions C13_source_shape_known.
 
-(* a missing call target is an error (not a panic) and the in-progress branch deactivates only what it activated *)
-Theorem C13_source_is_repaired : variant_now = {| v_lookup_panics := false; v_inprog_unguarded := false |}.
+(* a missing call target is an error (not a panic), the in-progress branch deactivates only what it activated, and a
+   statement without `Stmt` is an error (not a panic) *)
+Theorem C13_source_is_repaired : variant_now = {| v_lookup_panics := false; v_inprog_unguarded := false; v_nil_panics := false |}.
 Proof. exact variant_now_fixed. Qed.
 Print Assumptions C13_source_is_repaired.
 
 Theorem C13_source_shape :
   stmt_arms = [("Action","visitAction"); ("Alt","visitAlt"); ("Call","visitCall"); ("Cond","visitCond");
                ("Foreach","visitForeach"); ("Group","visitGroup"); ("Loop","visitLoop"); ("LoopN","visitLoopN");
-               ("Ret","visitRet"); ("default","panic")]%string
+               ("Ret","visitRet"); ("default","error")]%string
   /\ group_stmt_closes = true /\ alt_rule = "last-statement-and-last-choice"%string
   /\ is_last_rule = "parent-last-and-last-index"%string.
 Proof. exact (conj stmt_arms_expected (conj group_stmt_closes_block (conj alt_rule_expected is_last_rule_expected))). Qed.
@@ -32,15 +33,21 @@ Theorem C13_terminates : forall V m fuel bbs starts, n_endpoints m < fuel -> gen
 Proof. exact seq_terminates. Qed.
 Print Assumptions C13_terminates.
 
-(* ---- "a diagram or an error": no panic, for the lookups of the CURRENT source ---- *)
+(* ---- "a diagram or an error": no panic, for the lookups and the statement switch of the CURRENT source; the module may
+   hold statements whose `Stmt` is not set (Nil), alternatives without choices, calls to what does not exist ---- *)
 Theorem C13_no_panic : forall m fuel bbs starts, gen variant_now m fuel bbs starts <> Panic.
-Proof. intros m. exact (seq_no_panic variant_now m (f_equal v_lookup_panics variant_now_fixed)). Qed.
+Proof. intros m. exact (seq_no_panic variant_now m (f_equal v_lookup_panics variant_now_fixed) (f_equal v_nil_panics variant_now_fixed)). Qed.
 Print Assumptions C13_no_panic.
 
 Theorem C13_no_panic_refuted_before_repair :
-  gen {| v_lookup_panics := true; v_inprog_unguarded := false |} dangling_module (fuel_for dangling_module) [] [(0%N,0%N)] = Panic.
+  gen {| v_lookup_panics := true; v_inprog_unguarded := false; v_nil_panics := false |} dangling_module (fuel_for dangling_module) [] [(0%N,0%N)] = Panic.
 Proof. exact seq_no_panic_refuted_when_lookups_panic. Qed.
 Print Assumptions C13_no_panic_refuted_before_repair.
+
+Theorem C13_no_panic_refuted_for_statement_without_type_before_repair :
+  gen {| v_lookup_panics := false; v_inprog_unguarded := false; v_nil_panics := true |} nil_module (fuel_for nil_module) [] [(0%N,0%N)] = Panic.
+Proof. exact seq_no_panic_refuted_when_nil_panics. Qed.
+Print Assumptions C13_no_panic_refuted_for_statement_without_type_before_repair.
 
 (* ---- every opened block is closed (else only inside alt, section headers outside any block) ---- *)
 Theorem C13_blocks_closed : forall V m fuel bbs starts d ev,
@@ -50,7 +57,7 @@ Print Assumptions C13_blocks_closed.
 
 (* wf_module (every alternative has at least one choice - all the parser produces) is needed *)
 Theorem C13_blocks_closed_refuted_for_empty_alt :
-  exists d ev, gen {| v_lookup_panics := false; v_inprog_unguarded := false |} empty_alt_module (fuel_for empty_alt_module) [] [(0%N,0%N)] = Ok (d, ev)
+  exists d ev, gen {| v_lookup_panics := false; v_inprog_unguarded := false; v_nil_panics := false |} empty_alt_module (fuel_for empty_alt_module) [] [(0%N,0%N)] = Ok (d, ev)
                /\ blk [] ev = None.
 Proof. exact seq_blocks_closed_refuted_for_empty_alt. Qed.
 Print Assumptions C13_blocks_closed_refuted_for_empty_alt.
@@ -62,6 +69,23 @@ Theorem C13_balanced : forall V m fuel bbs starts d ev,
 Proof. exact seq_balanced. Qed.
 Print Assumptions C13_balanced.
 
+(* ---- several start entries in one diagram (-s repeated, a project endpoint with several calls): whenever a section
+   header is written every participant has been deactivated as often as it was activated, so every section - the
+   events from its header to the next header or the end - is balanced by itself and no prefix of it goes negative.
+   (Participants are declared once OVERALL: C13_declared_once below is for any start list.) ---- *)
+Theorem C13_sections_start_idle : forall V m fuel bbs starts d ev,
+  gen V m fuel bbs starts = Ok (d, ev) ->
+  forall pre a e post, ev = pre ++ Section a e :: post -> forall x, n_act x pre = n_deact x pre.
+Proof. exact seq_sections_start_idle. Qed.
+Print Assumptions C13_sections_start_idle.
+
+Theorem C13_section_balanced : forall V m fuel bbs starts d ev,
+  gen V m fuel bbs starts = Ok (d, ev) ->
+  forall pre a e seg rest, ev = pre ++ Section a e :: seg ++ rest -> (rest = [] \/ exists a' e' r, rest = Section a' e' :: r) ->
+  forall x, n_act x seg = n_deact x seg /\ forall p q, seg = p ++ q -> n_deact x p <= n_act x p.
+Proof. exact seq_section_balanced. Qed.
+Print Assumptions C13_section_balanced.
+
 (* ---- a participant sends calls only while it is active (human / cron participants are never activated) ---- *)
 Theorem C13_sender_active : forall m fuel bbs starts d ev,
   gen variant_now m fuel bbs starts = Ok (d, ev) ->
@@ -71,7 +95,7 @@ Print Assumptions C13_sender_active.
 
 Theorem C13_sender_active_refuted_before_repair :
   exists d ev pre t e post,
-    gen {| v_lookup_panics := false; v_inprog_unguarded := true |} inprog_module (fuel_for inprog_module) [] [(0%N,0%N)] = Ok (d, ev)
+    gen {| v_lookup_panics := false; v_inprog_unguarded := true; v_nil_panics := false |} inprog_module (fuel_for inprog_module) [] [(0%N,0%N)] = Ok (d, ev)
     /\ ev = pre ++ Arrow (P 0%N) t e :: post /\ suppressed inprog_module 0%N = false /\ n_act 0%N pre = n_deact 0%N pre.
 Proof. exact seq_sender_active_refuted_when_unguarded. Qed.
 Print Assumptions C13_sender_active_refuted_before_repair.
@@ -262,6 +286,43 @@ Theorem C13_format_panic_refuted_before_repair :
   w_run ov_before [] [] "%(epname"%string = OPanic /\ w_run ov_repaired [] [] "%(epname"%string = OErr.
 Proof. exact format_panic_refuted_before_repair. Qed.
 Print Assumptions C13_format_panic_refuted_before_repair.
+
+(* ---- DoConstructSequenceDiagrams AS A WHOLE returns diagrams or an error, never a panic: every module (cycles, calls to
+   what does not exist, statements without type, alternatives without choices), every text table, every option record
+   (both modes, any format strings, any `blackboxes` attribute, any entries), every regexp oracle. Needs the four facts
+   about the source (lookups and the statement switch return errors; formats are tried before use; the attribute is read
+   with guards); instantiated below with what the translator reads from the CURRENT source. The text walk of a section is
+   proved to end within `fuel_for m` and, over a format that passed the trial parse, not to panic. ---- *)
+Theorem C13_do_construct_never_panics : forall rx short_b V OV m T o,
+  v_lookup_panics V = false -> v_nil_panics V = false -> ov_fmt_checked OV = true -> ov_bbattr_guarded OV = true ->
+  do_construct rx short_b V OV m T o <> OPanic.
+Proof. intros rx short_b V OV m T o HV HN HF HG. exact (do_construct_total rx m T short_b V OV HV HN HF HG o). Qed.
+Print Assumptions C13_do_construct_never_panics.
+Example C13_do_construct_never_panics_nonvacuous :
+  v_lookup_panics v_repaired = false /\ v_nil_panics v_repaired = false /\ ov_fmt_checked ov_repaired = true /\ ov_bbattr_guarded ov_repaired = true.
+Proof. repeat split. Qed.
+
+Theorem C13_do_construct_never_panics_now : forall rx short_b m T o,
+  do_construct rx short_b variant_now
+    {| ov_fmt_checked := fmt_checked_now; ov_bbattr_guarded := bbattr_guarded_now; ov_onechar_in_heap := onechar_in_heap_now;
+       ov_ep_layered := ep_layered_now; ov_ep_empty_reported := ep_empty_reported_now |} m T o <> OPanic.
+Proof.
+  intros rx short_b m T o.
+  exact (do_construct_total rx m T short_b variant_now
+           {| ov_fmt_checked := fmt_checked_now; ov_bbattr_guarded := bbattr_guarded_now; ov_onechar_in_heap := onechar_in_heap_now;
+              ov_ep_layered := ep_layered_now; ov_ep_empty_reported := ep_empty_reported_now |}
+           (f_equal v_lookup_panics variant_now_fixed) (f_equal v_nil_panics variant_now_fixed)
+           fmt_checked_now_true bbattr_guarded_now_true o).
+Qed.
+Print Assumptions C13_do_construct_never_panics_now.
+
+(* the text walk of one section ends (one level of fuel per endpoint) and gives texts, for every format that passes the
+   trial parse *)
+Theorem C13_text_walk_total : forall rx m T epfmt tbb, format_ok rx epfmt = true ->
+  forall fuel inprog caller a e, NoDup inprog -> incl inprog (keys m) -> length (keys m) < fuel + length inprog ->
+  exists items, text_walk rx m T epfmt tbb fuel inprog caller a e = POk items.
+Proof. exact text_walk_total. Qed.
+Print Assumptions C13_text_walk_total.
 
 (* a description of the code, not a requirement: an endpoint's blackbox with an empty note is not in force and is not reported *)
 Theorem C13_empty_note_is_silently_not_in_force :
